@@ -97,7 +97,9 @@ def shard(S, p):
                 chain_ok = r.rc == 0
             S.count("combined_vs_chain")
             S.observe("option_subsets", "".join("MPKN"[j] if f else "-" for j, f in enumerate((bool(margs), bool(pargs), bool(kargs), bool(nargs)))))
-            wit = {"level": "C", "input_b64": E.b64(inp), "combined_argv": combined.argv, "chain": [r.argv for r in chain_runs], "combined": combined.brief()}
+            from .. import replay as R
+            wit = {"level": "C", "input_b64": E.b64(inp), "combined_argv": combined.argv, "chain": [r.argv for r in chain_runs], "combined": combined.brief(),
+                   "replay": R.pipeline_same([combined], chain_runs)}
             tag = "C view %s on shape %r" % (" ".join(margs + pargs + kargs + nargs + oargs), shape)
             if combined.rc != 0 or not chain_ok:
                 S.viol("C13:fail", "[%s] combined rc %s (%r), chain ok=%s (%r)" % (tag, combined.rc, combined.err[:150], chain_ok, chain_runs[-1].err[:150]), wit)
